@@ -31,7 +31,8 @@ for pid in ids:
         if not os.path.isfile(f'{src}/patch.diff'):
             continue
         tag = f'{pid}_{m}'
-        wt = f'/tmp/seed/wt_{pid}'
+        wt = '/tmp/seed/clean'      # clean worktree kept at /repo's HEAD
+        sh(f"git -C {wt} checkout -q --detach $(git -C /repo rev-parse HEAD)")
         meta = {'id': tag, 'property': pid, 'tier_run': tier}
         t0 = time.time()
         # 1. tests in the scratch worktree with the patch
